@@ -72,7 +72,9 @@ class ClassifierAfterKMeans(BaseEstimator, ClassifierMixin):
             self.clus_[cl] = m
 
         extX = self.transform_features(X)
-        self.estimator_ = self.estimator.fit(extX, y, sample_weight=sample_weight)
+        self.estimator_ = clone(self.estimator).fit(
+            extX, y, sample_weight=sample_weight
+        )
         return self
 
     def transform_features(self, X):
@@ -95,21 +97,21 @@ class ClassifierAfterKMeans(BaseEstimator, ClassifierMixin):
         Runs the predictions.
         """
         extX = self.transform_features(X)
-        return self.estimator.predict(extX)
+        return self.estimator_.predict(extX)
 
     def predict_proba(self, X):
         """
         Converts predictions into probabilities.
         """
         extX = self.transform_features(X)
-        return self.estimator.predict_proba(extX)
+        return self.estimator_.predict_proba(extX)
 
     def decision_function(self, X):
         """
         Calls *decision_function*.
         """
         extX = self.transform_features(X)
-        return self.estimator.decision_function(extX)
+        return self.estimator_.decision_function(extX)
 
     def get_params(self, deep=True):
         """
